@@ -79,3 +79,52 @@ Example T09_nonvacuous_errors :
   dec_parse true [0x31; 0x2E; 0x2E] = Err E_2ManyDecPoint /\ dec_parse true [0x31; 0x65; 0x35] = Err E_Inv_chars /\
   dec_parse true [0x20] = Err E_WSString /\ dec_parse true [] = Err E_emptyString /\ dec_parse true [0x2E] = Err E_Inv_chars.
 Proof. vm_compute. repeat split; reflexivity. Qed.
+
+(** ** binary types, boolean, dateTime (tables regenerated from /repo on every run) *)
+From XV Require Import C09.Spec09b C09.Model09b C09.Spec09c C09.Model09c C09.Proofs09f.
+Local Open Scope N_scope.
+
+Theorem T09_base64_table : b64_table_ok = true.
+Proof. exact b64_table. Qed.
+Print Assumptions T09_base64_table.
+
+Theorem T09_hex_table : hex_table_ok = true.
+Proof. exact hex_table. Qed.
+Print Assumptions T09_hex_table.
+
+(** finding F12 (narrowing of UTF-16 units to bytes) on the faithful model, and its absence in the repaired one *)
+Theorem T09_base64_narrowing_refuted :
+  b64_decode true false false [0x141; 0x41; 0x41; 0x41] = Some ([0; 0; 0], [0x41; 0x41; 0x41; 0x41]) /\
+  b64_lex [0x141; 0x41; 0x41; 0x41] = false /\
+  b64_decode true false false [0x41; 0x41; 0x41; 0x41; 0x100; 0x21; 0x21] = Some ([0; 0; 0], [0x41; 0x41; 0x41; 0x41]) /\
+  b64_lex [0x41; 0x41; 0x41; 0x41; 0x100; 0x21; 0x21] = false /\
+  b64_decode true true false [0x141; 0x41; 0x41; 0x41] = None /\
+  b64_decode true true false [0x41; 0x41; 0x41; 0x41; 0x100; 0x21; 0x21] = None.
+Proof. exact b64_narrowing_refuted. Qed.
+Print Assumptions T09_base64_narrowing_refuted.
+
+(** finding F26 (byte 0xFF indexes one past base64Inverse) *)
+Theorem T09_base64_table_refuted :
+  N.of_nat (length base64Inverse) = 255 /\
+  b64_decode true false false [0xFF; 0x41; 0x41; 0x41] = Some ([0; 0; 0], [0xFF; 0x41; 0x41; 0x41]) /\
+  b64_lex [0xFF; 0x41; 0x41; 0x41] = false /\ b64_decode true false true [0xFF; 0x41; 0x41; 0x41] = None.
+Proof. exact b64_table_refuted. Qed.
+Print Assumptions T09_base64_table_refuted.
+
+(** findings F11 (second = 60) and F29 ('.' without fraction digit before a time zone) on the faithful dateTime model *)
+Theorem T09_datetime_second60_refuted :
+  dt_ok false lit_sec60 = true /\ dt_lex lit_sec60 = false /\ dt_ok true lit_sec60 = false.
+Proof. exact dt_second60_refuted. Qed.
+Print Assumptions T09_datetime_second60_refuted.
+
+Theorem T09_datetime_emptyfraction_refuted : dt_ok true lit_emptyfrac = true /\ dt_lex lit_emptyfrac = false.
+Proof. exact dt_emptyfraction_refuted. Qed.
+Print Assumptions T09_datetime_emptyfraction_refuted.
+
+Theorem T09_datetime_maxday : forall y m, (0 <= y)%Z -> max_day y m = days_in_month y m.
+Proof. exact max_day_is_days_in_month. Qed.
+Print Assumptions T09_datetime_maxday.
+
+Theorem T09_boolean_lex : forall s, bool_check s = None <-> bool_lex s = true.
+Proof. exact bool_check_lex. Qed.
+Print Assumptions T09_boolean_lex.
